@@ -181,19 +181,35 @@ Section Par2.
   | RFNoPackets                (* noPacketsFoundError *)
   | RFOk (setid : bytes) (f : pfile).
 
-  (* readFile; expected = None for the index file *)
+  (* bytes.Index(l, expectedMagic): the first suffix of l that starts with the magic sequence *)
+  Fixpoint find_magic (l : bytes) : option bytes :=
+    match l with
+    | [] => None
+    | _ :: r => if bytes_eqb (firstn 8 l) MAGIC then Some l else find_magic r
+    end.
+
+  (* the end of readFile's loop: what is returned once no more packets can be read *)
+  Definition rf_finish (setid : option bytes) (found : bool) (f : pfile) : rf_result :=
+    if negb found then RFNoPackets
+    else match pf_client f, setid with
+         | Some _, Some sid => RFOk sid f
+         | _, _ => RFErr
+         end.
+
+  (* readFile; expected = None for the index file.  A damaged packet (bad magic or length, truncated body,
+     hash mismatch) is skipped: reading resumes at the next magic sequence after the start of that packet,
+     and ends when there is none *)
   Fixpoint read_file_go (fuel : nat) (buf : bytes) (setid : option bytes) (found : bool) (f : pfile) : rf_result :=
     match fuel with
     | O => RFErr
     | S fuel' =>
       match read_next_packet buf with
-      | NPErr => RFErr
-      | NPEof =>
-          if negb found then RFNoPackets
-          else match pf_client f, setid with
-               | Some _, Some sid => RFOk sid f
-               | _, _ => RFErr
-               end
+      | NPErr =>
+          match find_magic (tl buf) with
+          | Some rest => read_file_go fuel' rest setid found f
+          | None => rf_finish setid found f
+          end
+      | NPEof => rf_finish setid found f
       | NPPacket psid ptype body rest =>
           let skip := match setid with Some sid => negb (bytes_eqb psid sid) | None => false end in
           if skip then read_file_go fuel' rest setid found f
@@ -235,6 +251,12 @@ Section Par2.
     end.
   Definition read_file (expected : option bytes) (b : bytes) : rf_result :=
     read_file_go (S (length b)) b expected false pf_empty.
+
+  (* readFile on a recovery file (LoadParityData): only the recovery packets of the result are used, and the
+     creator packet is not required there - reading starts as if one had been seen *)
+  Definition pf_vol0 : pfile := {| pf_client := Some []; pf_main := None; pf_fdesc := []; pf_ifsc := []; pf_recv := [] |}.
+  Definition read_file_vol (sid : bytes) (b : bytes) : rf_result :=
+    read_file_go (S (length b)) b (Some sid) false pf_vol0.
 
   (* sort.Ints on the exponents *)
   Fixpoint insert_exp (x : N * bytes) (l : list (N * bytes)) : list (N * bytes) :=
@@ -515,7 +537,7 @@ Section Par2.
     | p :: r =>
         match io_read p st with
         | (Ok b, st1) =>
-            match read_file (Some (d_setid d)) b with
+            match read_file_vol (d_setid d) b with
             | RFNoPackets => load_parity d r acc st1
             | RFErr => (Err EMalformed, st1)
             | RFOk _ f =>
